@@ -236,7 +236,8 @@ class _B:
 
     def keyed_runs(self, size):
         """Two or three interleaved keyed runs."""
-        keys = self.draw(self.st.lists(self.st.sampled_from(["A", "B", None]), min_size=2, max_size=3, unique=True))
+        pool = ["A", "B", None, 0, ""] if self.profile == "keys" else ["A", "B", None]  # falsy keys are keys too
+        keys = self.draw(self.st.lists(self.st.sampled_from(pool), min_size=2, max_size=3, unique=True))
         nodes = []
         for k in keys:
             self.runs[k] = {"monitored": set(), "kicked": set()}
@@ -259,6 +260,9 @@ class _B:
             if self.chance(0.5):
                 nodes.append(M("checkpoint"))
             del self.runs[k]
+        if self.profile == "keys" and self.chance(0.4):
+            # a default run key around everything: only messages without a key of their own may be re-addressed
+            return [["wrap", "set_run_key", {"run": "W"}, SEQ(*nodes)]]
         return nodes
 
     def plan(self):
